@@ -163,6 +163,14 @@ def guard_table(c, gen, ln, atoms, consistent=lambda a: True):
     conditions, strengthened by every assert that is executed before it on the same path (frames a prefix of `gen`).
     Returns {assignment tuple: True/False/None}; None = decided by something outside the atoms."""
     frames = [(c.norm(fr[1]), fr[2]) for fr in gen if fr[0] == 'pyif']
+
+    def input_validation(cond):
+        """a test of the address argument alone against the bounds of the map's own address space / its type: it narrows the
+        inputs, not the choice between the tables"""
+        names = {x for x in ir.walk(cond) if x[0] in ('name', 'attr')}
+        allowed = {('name', 'address'), ('name', 'int'), ('name', 'isinstance'), ('name', 'self'), c.parse("self.addr_width"), c.parse("self._addr_width")}
+        return bool(names) and names <= allowed and not any(x in atoms for x in ir.walk(cond))
+    frames = [(cd, pol) for cd, pol in frames if not input_validation(cd)]
     pre = []                                            # (extra frames of the assert beyond the common prefix, test)
     my_loops = [fr[1] for fr in gen if fr[0] == 'for']
     for t, g_, l_ in c.t.asserts:
@@ -542,7 +550,13 @@ def decode_address(rep, idx):
         R = c.parse("self._windows[id(A)][2]", env)
         want = c.norm(ir.parse("(address - R.start) * R.step", {"R": R}))
         leaves = {"address": 'amP', ir.show(('attr', R, 'start')): 'amP', ir.show(('attr', R, 'stop')): 'amP', ir.show(('attr', R, 'step')): 'r'}
-        typed(rep, "C03.2", site, "address handed to the window's map = (address - window base) * ratio, with the window's stored range", arg, want, 'aw', leaves,
+        if arg is not None and arg != want and arg[0] == 'bin' and arg[1] == '%' and arg[2] == want:
+            rep.bad("C03.2", site, "address handed to the window's map = (address - window base) * ratio, with the window's stored range",
+                    f"the window-relative address is reduced modulo {ir.show(arg[3])[:60]}: the range of a window is its span rounded up to the "
+                    "map's alignment, so an address in that padding wraps onto the window's resources instead of decoding to nothing "
+                    "(all_resources() / find_resource() report no resource there)")
+        else:
+          typed(rep, "C03.2", site, "address handed to the window's map = (address - window base) * ratio, with the window's stored range", arg, want, 'aw', leaves,
               depends=[("address", "different addresses inside the window decode to different addresses of its map"),
                        (lambda x: x[0] == 'attr' and x[2] == 'start' or x[0] == 'sub' and x[2] == ('const', 0) and x[1][0] != 'tuple',
                         "no range start occurs in it; the offset inside a window is counted from where the window was placed; a mask of the address "
